@@ -5,7 +5,7 @@ From FEC Require Import Models.PackingM Models.LayoutM Models.LayoutValuesM Mode
 Import ListNotations.
 
 Lemma layouts_agree_b : paths_agree cpp_layouts layout_exceptions cpp_layouts py_layouts py_layout_paths = true.
-Proof. vm_compute. reflexivity. Qed.
+Proof. vm_cast_no_check (eq_refl true). Qed.    (* evaluated once, by the kernel's VM at Qed *)
 
 Lemma layouts_agree_forall : forall path tbl, In (path, tbl) py_layout_paths ->
   layouts_agree_spec cpp_layouts layout_exceptions cpp_layouts tbl /\
@@ -40,10 +40,10 @@ Proof. vm_compute. reflexivity. Qed.
 
 (* every value row: the number written at a C++ member's offset is the number Python shows (times the tabulated scale), and back *)
 Lemma values_b : forallb value_ok value_rows = true.
-Proof. vm_compute. reflexivity. Qed.
+Proof. vm_cast_no_check (eq_refl true). Qed.
 
 Lemma values_agree_forall : forall r, In r value_rows -> value_agrees r.
 Proof. exact (values_forall _ values_b). Qed.
 
-Lemma value_rows_nonempty : value_rows <> [].
-Proof. vm_compute. discriminate. Qed.
+Lemma value_rows_nonempty : value_table <> [].
+Proof. unfold value_table. discriminate. Qed.
